@@ -6,7 +6,8 @@
 (* check their psABI defines (x86-64 psABI 1.0 table 4.9 and the text on   *)
 (* R_X86_64_32/32S; "ELF for the Arm 64-bit Architecture" tables 5.7.x,    *)
 (* column "overflow check"), the decision rule                             *)
-(*     Accept(t, v)  <=>  Fits(t, v)                                       *)
+(*     Accept(t, place, v)  <=>  Fits(t, v)    (wherever the place is:     *)
+(*                                  loaded section or non-alloc debug one) *)
 (* and what an accepted value leaves in the output                         *)
 (*     Stored(t, v)   (low bytes for data relocations, the instruction's   *)
 (*                     immediate field for instruction relocations),       *)
@@ -119,6 +120,16 @@ NoTruncation(t, V) ==
 FitsImpliesNoTruncation(t, V) == (Fits(t, V) /\ Aligned(t, V)) => NoTruncation(t, V)
 (* ... and the check is tight: an aligned value that fails it is not recoverable from the field *)
 Tight(t, V) == (t.sign # "none" /\ ~Fits(t, V) /\ Aligned(t, V)) => ~NoTruncation(t, V)
+
+(* Where the place lives.  A relocation in a section that is not loaded (non-alloc `.debug_*`) is an
+   ordinary static relocation: its value is computed the same way (S + A for the absolute data types,
+   the only ones that can appear there) and must pass the same check - there is no "debug values
+   always fit" exemption.  The decision rule therefore does not look at the place. *)
+Places == {"alloc", "debug"}
+AbsoluteData == {"R_X86_64_64", "R_X86_64_32", "R_X86_64_32S", "R_X86_64_16", "R_X86_64_8",
+                 "R_AARCH64_ABS64", "R_AARCH64_ABS32", "R_AARCH64_ABS16"}
+LegalIn(t, place) == place = "alloc" \/ t.name \in AbsoluteData
+FitsAt(t, place, V) == Fits(t, V)
 
 (* For instruction relocations: the word that results over a zero instruction word, through the
    field layout of InsnFields *)
